@@ -174,6 +174,12 @@ func (a *AvahiProvider) Announce(serviceName string, port int, txt []string) err
 		btxt = append(btxt, []byte(t))
 	}
 
+	// a changed announcement replaces the current one
+	if a.avEntryGroup != nil {
+		a.avServer.EntryGroupFree(a.avEntryGroup)
+		a.avEntryGroup = nil
+	}
+
 	entryGroup, err := a.avServer.EntryGroupNew()
 	if err != nil {
 		return err
@@ -224,6 +230,9 @@ func (a *AvahiProvider) avahiCallback(event avahi.Event) {
 
 	// the server was shutdown, set it to nil so we don't try to call free functions
 	// on shutting down a currently running resolve
+	// the entry group is gone together with the daemon connection
+	a.avEntryGroup = nil
+
 	cb := a.resolveCB
 	var serviceData *mdnsServiceData
 	if a.mdnsServiceData != nil {
